@@ -62,6 +62,7 @@ _RULES = {
     "DIAG-FLAG": rules_more.rule_diag_flag,
     "IDENT-RANGE": rules_more.rule_ident_range,
     "RECURSION-BOUND": rules_struct.rule_recursion_bound,
+    "POSITION-TOKEN": rules_more.rule_position_token,
 }
 
 _cache = {}
